@@ -348,6 +348,7 @@ func buildTasks(run *ev.Run) (tasks []kase, dims map[string]any) {
 	l2 := enumLayouts(allTypes, 2)
 	h3 := enumLayouts(hourTypes, 3)
 	h2 := enumLayouts(hourTypes, 2)
+	lsib := enumLayouts(allTypes, 1) // sibling layouts of the thorough product
 	add := func(k kase) { tasks = append(tasks, k) }
 	sweep := func(mode, backend string, delta int64, ls [][]int) {
 		for p := range policies {
@@ -377,24 +378,24 @@ func buildTasks(run *ev.Run) (tasks []kase, dims map[string]any) {
 		direct("prefix", 3, directOffsets)
 		sweep("cycle", "local", 0, h3)
 	}
-	dims = map[string]any{"file_types": len(ftypes), "layouts_le3_files": len(l3), "layouts_le2_files": len(l2), "hour_only_layouts_le3": len(h3), "hour_only_layouts_le2": len(h2),
+	dims = map[string]any{"file_types": len(ftypes), "layouts_le3_files": len(l3), "layouts_le2_files": len(l2), "layouts_le1_file": len(lsib), "hour_only_layouts_le3": len(h3), "hour_only_layouts_le2": len(h2),
 		"policies": len(policies), "direct_cutoff_offsets_ns": directOffsets}
 	if !run.Quick() {
 		sweep("http", "local", 500, l3) // the clock (hence the cutoff) is not microsecond aligned
 		sweep("http", "prefix", 0, l3)
 		sweep("exec", "local", 0, l3)
 		sweep("exec", "prefix", 500, l3)
-		// full product: focus measurement (<=3 files) x the other measurement of the same database (<=2 files)
+		// full product: focus measurement (<=3 files) x the other measurement of the same database (<=1 file)
 		for p := range policies {
 			for i := range l3 {
-				for j := range l2 {
+				for j := range lsib {
 					k := kase{Mode: "http", Backend: "local", Policy: p, ord: len(l3) + i + j}
 					f := k.focus()
 					sib := f ^ 1
 					for _, t := range l3[i] {
 						k.Files = append(k.Files, fileRef{f, t})
 					}
-					for _, t := range l2[j] {
+					for _, t := range lsib[j] {
 						k.Files = append(k.Files, fileRef{sib, t})
 					}
 					for d, s := range []int{f ^ 2, f ^ 3} {
@@ -1173,13 +1174,34 @@ func main() {
 		counters := map[string]int64{}
 		samples := ev.NewSamples(1)
 		complete := true
-		for i, k := range tasks {
-			if i%shards != shard {
-				continue
+		// work is handed out dynamically in chunks of 8 consecutive tasks (a chunk belongs to the process that
+		// creates its claim file), so a worker starved of CPU does not hold the others back; cases are
+		// independent (fresh store each), so who runs a case has no influence on its verdict
+		claims := os.Getenv("VERIF_C11_CLAIMS")
+		const chunk = 8
+		mine := func(c int) bool {
+			if claims == "" {
+				return c%shards == shard
 			}
+			f, err := os.OpenFile(filepath.Join(claims, fmt.Sprint(c)), os.O_CREATE|os.O_EXCL|os.O_WRONLY, 0o644)
+			if err != nil {
+				return false
+			}
+			f.Close()
+			return true
+		}
+		owned := -1
+		for i, k := range tasks {
 			if run.TimeUp() {
 				complete = false
 				break
+			}
+			if c := i / chunk; c != owned {
+				if !mine(c) {
+					owned = -1
+					continue
+				}
+				owned = c
 			}
 			t1 := time.Now()
 			o := w.judge(k)
@@ -1198,7 +1220,7 @@ func main() {
 			}
 			counters["files_removed"] += int64(o.Deleted)
 			counters["files_that_had_to_go"] += int64(o.MustDelete)
-			if o.NonTrivial && (i/shards)%97 == 3 {
+			if o.NonTrivial && i%(97*16) == 48 {
 				samples.Add(sample(k, o))
 			}
 			for _, kind := range sortedKinds(o) {
@@ -1211,6 +1233,10 @@ func main() {
 		}
 		if os.Getenv("VERIF_C11_DEBUG") != "" {
 			fmt.Fprintf(os.Stderr, "shard %d: init %.2fs, per mode %v\n", shard, tInit.Seconds(), modeNS)
+			if f, err := os.OpenFile("/dev/shm/c11.debug.log", os.O_APPEND|os.O_CREATE|os.O_WRONLY, 0o644); err == nil {
+				fmt.Fprintf(f, "shard %d: started %s init %.2fs loop done after %.2fs evals %d\n", shard, t0.Format("15:04:05.000"), tInit.Seconds(), time.Since(t0).Seconds(), counters["evals"])
+				f.Close()
+			}
 		}
 		cleanup() // no orderly close of DuckDB: the process exits now
 		pprof.StopCPUProfile()
@@ -1220,7 +1246,7 @@ func main() {
 
 	// soft time cap (a capped run reports exhaustive=false): the budgets are 60 s / 15 min
 	if os.Getenv("VERIF_DEADLINE_S") == "" {
-		limit := 45 * time.Second
+		limit := 35 * time.Second
 		if !run.Quick() {
 			limit = 13 * time.Minute
 		}
@@ -1235,7 +1261,13 @@ func main() {
 		gen.jobDB.Close()
 	}
 	nShards := 16
+	os.Setenv("VERIF_C11_CLAIMS", filepath.Join(scratch, "claims"))
+	must(os.MkdirAll(filepath.Join(scratch, "claims"), 0o755), "mkdir")
+	tFix := time.Since(tStart)
 	counters, samples, complete := run.SpawnShards(nShards)
+	if os.Getenv("VERIF_C11_DEBUG") != "" {
+		fmt.Fprintf(os.Stderr, "parent: fixtures ready at %.1fs, shards done at %.1fs\n", tFix.Seconds(), time.Since(tStart).Seconds())
+	}
 	raw, counts := run.TakeViolations()
 
 	// ---- raw groups (oracle kind, mode, scope shape, cutoff, culprit role) -> minimise one representative
@@ -1316,7 +1348,7 @@ func main() {
 	run.Coverage["distinct_nontrivial"] = counters["nontrivial"]
 	tierRule := "quick: http/LocalBackend x 6 policies x all 286 layouts; exec/prefix-backend x 6 policies x 286; direct/LocalBackend on prod/cpu x cutoffs C+{-1000,-999,0,1,1000}ns x 286; direct/prefix-backend on prod/cpu x cutoff C x 286; cycle x 6 policies x the 21 multisets of <=2 hour files"
 	if !run.Quick() {
-		tierRule = "thorough: http and exec on both backends x 6 policies x all 286 layouts, http/LocalBackend and exec/prefix-backend also with a clock that is not microsecond aligned (cutoff C+500ns); direct on prod/cpu and prod2/cpu2 x both backends x cutoffs C+{-1000,-999,0,1,1000}ns x 286; cycle x 6 policies x the 56 multisets of <=3 hour files; plus the full product http/LocalBackend x 6 policies x focus measurement (286 layouts of <=3 files) x other measurement of the same database (66 layouts of <=2 files)"
+		tierRule = "thorough: http and exec on both backends x 6 policies x all 286 layouts, http/LocalBackend and exec/prefix-backend also with a clock that is not microsecond aligned (cutoff C+500ns); direct on prod/cpu and prod2/cpu2 x both backends x cutoffs C+{-1000,-999,0,1,1000}ns x 286; cycle x 6 policies x the 56 multisets of <=3 hour files; plus the full product http/LocalBackend x 6 policies x focus measurement (286 layouts of <=3 files) x other measurement of the same database (11 layouts of <=1 file)"
 	}
 	run.Coverage["rule"] = "cases = (mode, backend, policy or target measurement, cutoff offset, layout), enumerated exhaustively, simplest layout first. A layout gives each of prod/cpu, prod/cpu2, prod2/cpu, prod2/cpu2 a multiset of <=3 files over 10 types {hour file, compacted day file} x {entirely below C, straddling C, max==C, max==C-1us, entirely above C}; in every sweep the focus measurement (the policy's, or cpu for a policy without filter) runs through ALL 286 multisets while the other three hold the multisets 95/190/285 places further on (cyclically), so each of them also sees every multiset once. Policies: {prod,prod2} x {no filter, cpu, cpu2} with (retention,buffer) days (30,7),(2,1),(1,0). Modes: http = dry run then confirmed run through the fiber route; exec = ExecutePolicy; direct = deleteOldFiles dry then real with an exact cutoff; cycle = daily compaction.Job, dry run, run, compaction.Job, run. " + tierRule + ". A case is non-trivial when the covered measurements hold at least one file that must go (max(time) < cutoff) and the store holds at least one file that must stay; all cases are pairwise distinct, so distinct_nontrivial = number of non-trivial cases"
 	for k, v := range dims {
